@@ -398,6 +398,27 @@ func c18Judge(w *World, sc string, base, f c18Side) []Violation {
 		chk("confirm_selector", []string{bf.ConfirmSelector}, []string{a.ConfirmSelector})
 		chk("recover_selector", []string{bf.RecoverSelector}, []string{a.RecoverSelector})
 	}
+	// R2': whatever a failed request did save is sound - a password field that
+	// changed holds a hash of the password the request submitted, nothing else
+	// (an empty or half-made hash would be a change nobody asked for)
+	newPw := ""
+	switch o.Step.Kind {
+	case "recover_end":
+		newPw = f.w.lastSec2
+	case "op_update_password":
+		newPw = f.w.lastSec
+	case "register":
+		newPw = o.Step.Fields["password"]
+	}
+	if newPw != "" {
+		for _, pid := range sortedRowKeys(o.RowsAfter) {
+			a, bf := o.RowsAfter[pid], o.RowsBefore[pid]
+			if (bf == nil || bf.Password != a.Password) && !pwMatches(a.Password, newPw) {
+				out = append(out, viol("C18", "unsound_password_saved", sc, o,
+					fmt.Sprintf("fault %s at %s: the password field of %s changed to a value (%d bytes) that does not verify the submitted password", kind, site, pid, len(a.Password)), "fault", site+":"+kind))
+			}
+		}
+	}
 	for _, v := range setDiff(o.RMAfter, o.RMBefore) {
 		if f.hist.seen("", "rm", v) {
 			out = append(out, viol("C18", "spent_credential_revived", sc, o, fmt.Sprintf("fault %s at %s: a consumed remember token is back in the table", kind, site), "fault", site+":"+kind, "field", "rm"))
